@@ -1,8 +1,528 @@
-//! C06 descriptors closed exactly once (driver + runtime census) — not built yet.
+//! C06 (runtime level) — descriptors are closed exactly once, never in use,
+//! never leaked.
+//!
+//! Scenarios on the high-level crates (compio-fs files and pipes, compio-net
+//! TCP / Unix sockets) on both drivers, judged by
+//!  * a `/proc/self/fd` census (number -> target) at quiescence: after every
+//!    handle is gone the table equals the table before the scenario; the
+//!    runtime's own descriptors are inside both snapshots;
+//!  * `close().await` completing only after, and within a bounded number of
+//!    loop turns after, every other handle and in-flight operation let go;
+//!  * descriptor-producing operations (accept, open, connect, pipe) cancelled
+//!    by `timeout` or by dropping the future after k polls: the descriptor is
+//!    delivered or closed, never leaked, and a connection is either delivered
+//!    to the caller or its peer observes it being closed.
 
-use vcommon::Args;
+use std::{
+    cell::Cell,
+    collections::BTreeMap,
+    future::Future,
+    io::{Read, Write},
+    pin::Pin,
+    rc::Rc,
+    task::{Context, Poll},
+    time::Duration,
+};
 
-pub fn main(_args: &Args) {
-    eprintln!("c06: not implemented");
-    std::process::exit(3);
+use compio_buf::BufResult;
+use compio_driver::{DriverType, ProactorBuilder};
+use compio_io::{AsyncRead, AsyncReadAt, AsyncWriteExt};
+use compio_runtime::Runtime;
+use vcommon::{Args, Report, Rng, Value, json, panics};
+
+#[derive(Debug, Clone)]
+struct Prog {
+    driver: &'static str,
+    scenario: usize,
+    /// scenario parameters (clone count, delays in us, poll counts, orders)
+    p: [u64; 6],
+}
+
+const SCENARIOS: [&str; 8] = [
+    "file-close", "tcp-close", "unix-close", "accept-timeout", "accept-drop-after-k-polls", "open-drop-after-k-polls",
+    "connect-drop-after-k-polls", "pipe-drop-after-k-polls",
+];
+
+impl Prog {
+    fn to_json(&self) -> Value {
+        json!({"driver": self.driver, "scenario": SCENARIOS[self.scenario], "p": self.p})
+    }
+
+    fn from_json(v: &Value) -> Option<Prog> {
+        let mut p = [0u64; 6];
+        for (i, x) in v["p"].as_array()?.iter().enumerate().take(6) {
+            p[i] = x.as_u64()?;
+        }
+        Some(Prog {
+            driver: if v["driver"].as_str()? == "poll" { "poll" } else { "iour" },
+            scenario: SCENARIOS.iter().position(|s| Some(*s) == v["scenario"].as_str())?,
+            p,
+        })
+    }
+}
+
+fn fd_table() -> BTreeMap<i32, String> {
+    let mut m = BTreeMap::new();
+    if let Ok(rd) = std::fs::read_dir("/proc/self/fd") {
+        for e in rd.flatten() {
+            if let Ok(n) = e.file_name().to_string_lossy().parse::<i32>() {
+                if let Ok(t) = std::fs::read_link(e.path()) {
+                    let t = t.to_string_lossy().to_string();
+                    // the descriptor used to read the directory itself
+                    if t.contains("/proc/") && t.ends_with("/fd") {
+                        continue;
+                    }
+                    m.insert(n, t);
+                }
+            }
+        }
+    }
+    m
+}
+
+/// Kind of a descriptor target without the unstable inode part.
+fn classify(t: &str) -> String {
+    t.split(':').next().unwrap_or(t).to_string()
+}
+
+/// Poll a future at most `k` times, then drop it. Returns its output if it finished.
+struct PollK<F: Future> {
+    fut: Option<Pin<Box<F>>>,
+    left: u64,
+}
+
+impl<F: Future> Future for PollK<F> {
+    type Output = Option<F::Output>;
+
+    fn poll(mut self: Pin<&mut Self>, cx: &mut Context<'_>) -> Poll<Self::Output> {
+        let this = &mut *self;
+        if this.left == 0 {
+            this.fut = None;
+            return Poll::Ready(None);
+        }
+        let Some(f) = this.fut.as_mut() else { return Poll::Ready(None) };
+        match f.as_mut().poll(cx) {
+            Poll::Ready(v) => {
+                this.fut = None;
+                Poll::Ready(Some(v))
+            }
+            Poll::Pending => {
+                this.left -= 1;
+                if this.left == 0 {
+                    this.fut = None;
+                    return Poll::Ready(None);
+                }
+                // make sure we are polled again even if nothing happens
+                cx.waker().wake_by_ref();
+                Poll::Pending
+            }
+        }
+    }
+}
+
+fn poll_k<F: Future>(f: F, k: u64) -> PollK<F> {
+    PollK { fut: Some(Box::pin(f)), left: k.max(1) }
+}
+
+async fn turns(n: u64) {
+    for _ in 0..n {
+        compio_runtime::time::sleep(Duration::from_micros(200)).await;
+    }
+}
+
+struct Out {
+    viol: Vec<(String, String)>,
+    sig: String,
+    inconclusive: Option<String>,
+}
+
+fn vio(v: &mut Vec<(String, String)>, rule: &str, ctx: &str, what: String) {
+    v.push((format!("C06/{rule}/{ctx}"), what));
+}
+
+/// `close()` of one handle while `k` clones are released one by one: it must finish only
+/// after the last one is gone and within a bounded number of turns afterwards.
+async fn close_protocol<H: 'static>(
+    viol: &mut Vec<(String, String)>,
+    ctx: &str,
+    clones: Vec<H>,
+    closer: impl Future<Output = std::io::Result<()>> + 'static,
+    gaps_us: u64,
+    hold_op: Option<Pin<Box<dyn Future<Output = ()>>>>,
+) {
+    let alive = Rc::new(Cell::new(clones.len() + hold_op.is_some() as usize));
+    let closed_at_alive: Rc<Cell<Option<usize>>> = Rc::new(Cell::new(None));
+    let done = Rc::new(Cell::new(false));
+    let h = {
+        let alive = alive.clone();
+        let closed_at_alive = closed_at_alive.clone();
+        let done = done.clone();
+        compio_runtime::spawn(async move {
+            let r = closer.await;
+            closed_at_alive.set(Some(alive.get()));
+            done.set(true);
+            r
+        })
+    };
+    if let Some(op) = hold_op {
+        let alive = alive.clone();
+        compio_runtime::spawn(async move {
+            op.await;
+            alive.set(alive.get() - 1);
+        })
+        .detach();
+    }
+    for c in clones {
+        compio_runtime::time::sleep(Duration::from_micros(gaps_us)).await;
+        if done.get() {
+            break;
+        }
+        // the count goes down right before the handle really goes away
+        alive.set(alive.get() - 1);
+        drop(c);
+    }
+    // bounded number of loop turns for close() to notice
+    let mut t = 0;
+    while !done.get() && t < 200 {
+        turns(1).await;
+        t += 1;
+    }
+    if !done.get() {
+        vio(viol, "close-never-completes", ctx,
+            format!("every other handle is gone ({} still counted) but close() is still pending after 200 loop turns", alive.get()));
+        drop(h);
+        return;
+    }
+    match closed_at_alive.get() {
+        Some(0) => {}
+        Some(n) => vio(viol, "close-completed-while-shared", ctx, format!("close() completed while {n} other handle(s)/operation(s) were still alive")),
+        None => {}
+    }
+    if let Ok(Err(e)) = h.await {
+        vio(viol, "close-error", ctx, format!("close() returned {e}"));
+    }
+}
+
+async fn scenario(p: Prog, viol: &mut Vec<(String, String)>) -> String {
+    let ctx = format!("{}/{}", p.driver, SCENARIOS[p.scenario]);
+    let k = (p.p[0] % 4) as usize;
+    match p.scenario {
+        0 => {
+            // file: clones + an in-flight read holding a clone
+            let path = std::env::temp_dir().join(format!("vdrv-c06-{}-{}", std::process::id(), p.p[5]));
+            std::fs::write(&path, vec![7u8; 4096]).unwrap();
+            let f = compio_fs::File::open(&path).await.unwrap();
+            let mut clones: Vec<_> = (0..k).map(|_| f.clone()).collect();
+            // sometimes another handle is released through its own close() instead of a drop
+            let second_close = p.p[4] % 3 == 0 && !clones.is_empty();
+            let second = second_close.then(|| clones.pop().unwrap());
+            let reader = f.clone();
+            let op: Pin<Box<dyn Future<Output = ()>>> = Box::pin(async move {
+                let BufResult(r, b) = reader.read_at(Vec::with_capacity(128), 0).await;
+                let _ = (r, b);
+                drop(reader);
+            });
+            let op: Option<Pin<Box<dyn Future<Output = ()>>>> = match (second, p.p[2] % 2 == 0) {
+                (Some(c), hold) => {
+                    // the "operation" is: (the read, then) the second handle's own close()
+                    Some(Box::pin(async move {
+                        if hold {
+                            op.await;
+                        }
+                        compio_runtime::time::sleep(Duration::from_micros(p.p[3] % 500)).await;
+                        let _ = c.close().await;
+                    }))
+                }
+                (None, true) => Some(op),
+                (None, false) => {
+                    drop(op); // it holds a clone of the file
+                    None
+                }
+            };
+            close_protocol(viol, &ctx, clones, f.close(), p.p[1] % 400, op).await;
+            let _ = std::fs::remove_file(&path);
+            format!("{ctx}|clones{k}|op{}|second-close{}", p.p[2] % 2, second_close as u8)
+        }
+        1 | 2 => {
+            // stream sockets: connected pair, clones, a pending read holding a clone
+            enum S {
+                T(compio_net::TcpStream),
+                U(compio_net::UnixStream),
+            }
+            let (a, peer): (S, Box<dyn FnOnce() + Send>) = if p.scenario == 1 {
+                let l = compio_net::TcpListener::bind("127.0.0.1:0").await.unwrap();
+                let addr = l.local_addr().unwrap();
+                let c = std::thread::spawn(move || std::net::TcpStream::connect(addr).unwrap());
+                let (s, _) = l.accept().await.unwrap();
+                let c = c.join().unwrap();
+                l.close().await.unwrap();
+                (S::T(s), Box::new(move || drop(c)))
+            } else {
+                let (x, y) = std::os::unix::net::UnixStream::pair().unwrap();
+                (S::U(compio_net::UnixStream::from_std(x).unwrap()), Box::new(move || drop(y)))
+            };
+            match a {
+                S::T(s) => {
+                    let clones: Vec<_> = (0..k).map(|_| s.clone()).collect();
+                    let mut r = s.clone();
+                    let op: Pin<Box<dyn Future<Output = ()>>> = Box::pin(async move {
+                        // pending until the peer goes away
+                        let _ = r.read(Vec::with_capacity(16)).await;
+                    });
+                    let hold = p.p[2] % 2 == 0;
+                    if hold {
+                        // the read only finishes when the peer closes: do that after a while
+                        let d = p.p[3] % 2000;
+                        std::thread::spawn(move || {
+                            std::thread::sleep(Duration::from_micros(d));
+                            peer();
+                        });
+                        close_protocol(viol, &ctx, clones, s.close(), p.p[1] % 400, Some(op)).await;
+                    } else {
+                        drop(op); // it holds a clone of the stream
+                        close_protocol(viol, &ctx, clones, s.close(), p.p[1] % 400, None).await;
+                        peer();
+                    }
+                }
+                S::U(s) => {
+                    let clones: Vec<_> = (0..k).map(|_| s.clone()).collect();
+                    close_protocol(viol, &ctx, clones, s.close(), p.p[1] % 400, None).await;
+                    peer();
+                }
+            }
+            format!("{ctx}|clones{k}|op{}", p.p[2] % 2)
+        }
+        3 | 4 => {
+            // accept cancelled around the moment a connection arrives
+            let l = compio_net::TcpListener::bind("127.0.0.1:0").await.unwrap();
+            let addr = l.local_addr().unwrap();
+            let delay = p.p[1] % 3000;
+            let (tx, rx) = std::sync::mpsc::channel::<&'static str>();
+            let peer = std::thread::spawn(move || {
+                std::thread::sleep(Duration::from_micros(delay));
+                let Ok(mut c) = std::net::TcpStream::connect(addr) else {
+                    let _ = tx.send("connect-failed");
+                    return;
+                };
+                let _ = c.write_all(b"N");
+                c.set_read_timeout(Some(Duration::from_secs(3))).ok();
+                let mut b = [0u8; 1];
+                // delivered: the acceptor echoes one byte; closed: EOF / reset
+                let _ = tx.send(match c.read(&mut b) {
+                    Ok(1) => "echoed",
+                    Ok(_) => "closed",
+                    Err(e) if e.kind() == std::io::ErrorKind::WouldBlock || e.kind() == std::io::ErrorKind::TimedOut => "silent",
+                    Err(_) => "closed",
+                });
+            });
+            let first = if p.scenario == 3 {
+                match compio_runtime::time::timeout(Duration::from_micros(p.p[2] % 3000), l.accept()).await {
+                    Ok(r) => Some(r),
+                    Err(_) => None,
+                }
+            } else {
+                poll_k(l.accept(), 1 + p.p[2] % 4).await
+            };
+            let mut delivered = 0;
+            let mut handle = |r: std::io::Result<(compio_net::TcpStream, std::net::SocketAddr)>| async move {
+                if let Ok((mut s, _)) = r {
+                    let BufResult(r, b) = s.read(Vec::with_capacity(1)).await;
+                    if matches!(r, Ok(1)) && b == b"N" {
+                        let _ = s.write_all(b"E").await;
+                    }
+                    let _ = s.close().await;
+                    1
+                } else {
+                    0
+                }
+            };
+            let cancelled = first.is_none();
+            if let Some(r) = first {
+                delivered += handle(r).await;
+            } else {
+                // the cancelled accept must not have swallowed the connection silently:
+                // either a later accept gets it, or the peer sees it closed
+                if let Ok(r) = compio_runtime::time::timeout(Duration::from_millis(300), l.accept()).await {
+                    delivered += handle(r).await;
+                }
+            }
+            let verdict = rx.recv_timeout(Duration::from_secs(5)).unwrap_or("no-report");
+            let _ = peer.join();
+            match (delivered, verdict) {
+                (1, "echoed") | (0, "closed") | (_, "connect-failed") => {}
+                (0, "silent") => vio(viol, "connection-swallowed", &ctx,
+                    "the connection was neither delivered to any accept call nor closed: its descriptor is held by nobody the caller can reach".to_string()),
+                (d, v) => vio(viol, "accept-inconsistent", &ctx, format!("delivered={d} but the peer observed {v}")),
+            }
+            l.close().await.ok();
+            format!("{ctx}|{}|{}", if cancelled { "cancelled" } else { "completed" }, verdict)
+        }
+        5 => {
+            let path = std::env::temp_dir().join(format!("vdrv-c06o-{}-{}", std::process::id(), p.p[5]));
+            std::fs::write(&path, b"x").unwrap();
+            let r = poll_k(compio_fs::File::open(&path), 1 + p.p[2] % 3).await;
+            let done = r.is_some();
+            if let Some(Ok(f)) = r {
+                if p.p[3] % 2 == 0 {
+                    f.close().await.ok();
+                } else {
+                    drop(f);
+                }
+            }
+            let _ = std::fs::remove_file(&path);
+            format!("{ctx}|{}", if done { "completed" } else { "dropped" })
+        }
+        6 => {
+            let l = std::net::TcpListener::bind("127.0.0.1:0").unwrap();
+            let addr = l.local_addr().unwrap();
+            let r = poll_k(compio_net::TcpStream::connect(addr), 1 + p.p[2] % 4).await;
+            let done = r.is_some();
+            if let Some(Ok(s)) = r {
+                s.close().await.ok();
+            }
+            drop(l);
+            format!("{ctx}|{}", if done { "completed" } else { "dropped" })
+        }
+        _ => {
+            let r = poll_k(compio_fs::pipe::anonymous(), 1 + p.p[2] % 3).await;
+            let done = r.is_some();
+            if let Some(Ok((rx, tx))) = r {
+                if p.p[3] % 2 == 0 {
+                    rx.close().await.ok();
+                    tx.close().await.ok();
+                }
+            }
+            format!("{ctx}|{}", if done { "completed" } else { "dropped" })
+        }
+    }
+}
+
+fn run_prog(p: &Prog) -> Out {
+    let outer_before = fd_table();
+    let mut pb = ProactorBuilder::new();
+    pb.driver_type(if p.driver == "poll" { DriverType::Poll } else { DriverType::IoUring });
+    pb.capacity(32);
+    pb.thread_pool_recv_timeout(Duration::from_millis(30));
+    let rt = match Runtime::builder().with_proactor(pb).build() {
+        Ok(rt) => rt,
+        Err(e) => {
+            return Out { viol: vec![], sig: String::new(), inconclusive: Some(format!("cannot build runtime: {e}")) };
+        }
+    };
+    let mut viol = Vec::new();
+    let p2 = p.clone();
+    let (sig, inner_leak) = rt.block_on(async {
+        // make sure lazily created descriptors of the runtime exist before the snapshot
+        turns(2).await;
+        let before = fd_table();
+        let sig = scenario(p2, &mut viol).await;
+        // quiescence: closes may run on pool threads / as operations
+        let mut leak = None;
+        for _ in 0..400 {
+            turns(1).await;
+            let now = fd_table();
+            let extra: Vec<_> = now.iter().filter(|(n, t)| before.get(n).map(|b| classify(b)) != Some(classify(t))).collect();
+            if extra.is_empty() {
+                leak = None;
+                break;
+            }
+            leak = Some(extra.iter().map(|(n, t)| format!("{n}->{t}")).collect::<Vec<_>>());
+        }
+        (sig, leak)
+    });
+    let ctx = format!("{}/{}", p.driver, SCENARIOS[p.scenario]);
+    if let Some(l) = inner_leak {
+        let kinds: Vec<String> = l.iter().map(|x| classify(x.split("->").nth(1).unwrap_or(""))).collect();
+        vio(&mut viol, "descriptor-leaked", &ctx,
+            format!("after every handle was dropped/closed these descriptors are still open after 400 loop turns: {l:?} (kinds {kinds:?})"));
+    }
+    drop(rt);
+    // the runtime's own descriptors must be gone as well (pool threads may lag a little)
+    let mut outer_leak = None;
+    for _ in 0..300 {
+        let now = fd_table();
+        let extra: Vec<_> = now.iter().filter(|(n, _)| !outer_before.contains_key(n)).map(|(n, t)| format!("{n}->{t}")).collect();
+        if extra.is_empty() {
+            outer_leak = None;
+            break;
+        }
+        outer_leak = Some(extra);
+        std::thread::sleep(Duration::from_millis(1));
+    }
+    if let Some(l) = outer_leak {
+        vio(&mut viol, "descriptor-leaked-after-runtime-drop", &ctx, format!("still open after the runtime was dropped: {l:?}"));
+    }
+    Out { viol, sig, inconclusive: None }
+}
+
+fn generate(rng: &mut Rng, driver: &'static str, i: usize) -> Prog {
+    Prog {
+        driver,
+        scenario: rng.below(SCENARIOS.len()),
+        p: [rng.next_u64() % 100_000, rng.next_u64() % 100_000, rng.next_u64() % 100_000, rng.next_u64() % 100_000, rng.next_u64() % 100_000, i as u64],
+    }
+}
+
+pub fn main(args: &Args) {
+    let mut rep = Report::from_args("C06", &args.str("leg", "rt"), args);
+    let drivers: Vec<&'static str> = match args.get("driver") {
+        Some("poll") => vec!["poll"],
+        Some("iour") => vec!["iour"],
+        _ => vec!["iour", "poll"],
+    };
+    let progs: Vec<Prog> = if let Some(path) = args.get("replay") {
+        let text = std::fs::read_to_string(path).expect("replay file");
+        let v: Value = vcommon::serde_json::from_str(&text).expect("json");
+        match Prog::from_json(&v["program"]) {
+            Some(p) => vec![p; args.usize("repeat", 30)],
+            None => {
+                rep.inconclusive("replay file has no program");
+                rep.finish();
+                return;
+            }
+        }
+    } else {
+        let base = Rng::new(args.seed()).fork(args.shard() + 1);
+        (0..args.iters(300, 20000)).map(|i| generate(&mut base.fork(i as u64), drivers[i % drivers.len()], i)).collect()
+    };
+    for p in progs {
+        if rep.out_of_time() {
+            break;
+        }
+        match panics::catch(|| run_prog(&p)) {
+            Ok(o) => {
+                if let Some(r) = o.inconclusive {
+                    rep.eval(None);
+                    rep.inconclusive(&r);
+                } else if o.viol.is_empty() {
+                    rep.floor("cancelled-fd-producing-op", o.sig.contains("cancelled") || o.sig.contains("dropped"));
+                    rep.floor("close-with-other-holders", o.sig.contains("clones") && !o.sig.contains("clones0"));
+                    rep.eval(Some(o.sig));
+                    if rep.want_sample() {
+                        rep.sample(p.to_json());
+                    }
+                } else {
+                    rep.eval(None);
+                    let mut seen = std::collections::HashSet::new();
+                    for (sig, what) in o.viol {
+                        if seen.insert(sig.clone()) {
+                            rep.violation(&sig, &what, p.to_json());
+                        }
+                    }
+                }
+            }
+            Err(pi) => {
+                rep.eval(None);
+                match pi.origin() {
+                    panics::Origin::Repo(_) => rep.violation(
+                        &format!("C06/{}/{}/{}", pi.sig(), p.driver, SCENARIOS[p.scenario]),
+                        &format!("panic in compio at {}:{}: {}", pi.file, pi.line, pi.message),
+                        p.to_json(),
+                    ),
+                    o => rep.inconclusive(&format!("harness panic {o:?}: {}", pi.message)),
+                }
+            }
+        }
+    }
+    rep.finish();
 }
